@@ -72,7 +72,13 @@ func detWorker(args []string) int {
 }
 
 const detSDL = `
-type Query { item(id: Int!): Item ITEM: ITEM dog: Dog box(width: Int, height: Int): Int pets: [Pet] named: [Named] }
+type Query { item(id: Int!): Item ITEM: ITEM dog: Dog box(width: Int, height: Int): Int pets: [Pet] named: [Named] node: Node res: Resource }
+interface Node { id: ID }
+interface Resource implements Node { id: ID url: String }
+interface Draft implements Node { id: ID }
+type Image implements Resource & Node { id: ID url: String width: Int }
+type Note implements Draft & Node { id: ID text: String }
+type Video implements Resource & Node { id: ID url: String width: Int duration: Int }
 type Item { id: Int name: String nama: String namo: String }
 type ITEM { id: Int }
 type Dog implements Pet & Named { name: String barks: Boolean }
@@ -104,6 +110,8 @@ var detDocs = []string{
 	// groups errors in a map must still report them in a fixed order
 	`{ dog { name @tag @note @mark @tag @note @mark } }`, `{ dog { name @mark @tag @tag @note @mark @note } pets { name @note @tag @note @tag } }`,
 	`{ dog { namx namy namz } item(id: 1) { idx idy } box(widht: 1, heigth: 2, dept: 3) }`, `query($a: Itex, $b: Itey, $c: Doz) { dog { name } }`,
+	// unknown fields on an interface that interfaces implement too, the field existing on some implementers only
+	`{ node { duration } }`, `{ node { url width } }`, `{ node { text ... on Resource { duration } } res { duration widht } }`, `{ node { ... on Draft { text } ... on Video { url } duration } }`,
 	`{ dog { ...A ...B } } fragment A on Dog { ...B } fragment B on Dog { ...A }`, `{ a: dog { name } a: item(id: 1) { name } b: dog { n: name } b: dog { n: barks } }`,
 }
 
